@@ -723,6 +723,8 @@ class SourceHandler:
                 raise InvalidNakPdu("end offset larger than start offset")
             if segment_req[0] > self._params.fp.progress:
                 raise InvalidNakPdu("start offset larger than current file progress")
+            if segment_req[1] > self._params.fp.progress:
+                raise InvalidNakPdu("end offset larger than current file progress")
 
             missing_chunk_len = segment_req[1] - segment_req[0]
             current_offset = segment_req[0]
